@@ -27,6 +27,19 @@ register(claim)
 PENDING_REASON = "check not built yet in this session (planned: structural obligations per DESIGN.md section 4)"
 
 
+def _with_current_obligations(pid: str, text: str) -> str:
+    """Replace the design-time `Obligations Cxx.a-Cxx.b` range by the ids evaluated on the last run (from the evidence)."""
+    import re
+
+    ev = os.path.join(VERIF, "evidence", f"{pid}.json")
+    if not os.path.exists(ev):
+        return text
+    ids = [s["obligation"] for s in json.load(open(ev))["coverage"]["samples"]]
+    listing = f"Obligations as evaluated: {', '.join(ids)} (rule texts: DESIGN.md 8.5 and the evidence file)."
+    new, n = re.subn(r"(Structural obligations|Obligations) C\d\d\.\d+[a-z]?\s*-\s*C\d\d\.\d+[a-z]?\.?", listing, text)
+    return new if n else text.rstrip() + " " + listing
+
+
 def main() -> None:
     checks = []
     na = []
@@ -34,6 +47,7 @@ def main() -> None:
         pid = f"C{i:02d}"
         if pid in CLAIMS and os.path.exists(os.path.join(VERIF, "hwverif", "props", f"{pid.lower()}.py")):
             technique, text, note = CLAIMS[pid]
+            text = _with_current_obligations(pid, text)
             checks.append(
                 {
                     "property_id": pid,
@@ -42,7 +56,7 @@ def main() -> None:
                     "evidence_file": f"/verif/evidence/{pid}.json",
                     "replay_cmd_template": f"{PY} -m hwverif.cli replay {{path}}",
                     "engine": "hwverif",
-                    "level_claimed": {"category": "other", "text": text, "design_ref": f"DESIGN.md section 4, {pid}"},
+                    "level_claimed": {"category": "other", "text": text, "design_ref": f"DESIGN.md section 4 ({pid}) and section 8.5"},
                     "level_note": note,
                     "technique": technique,
                 }
